@@ -151,6 +151,13 @@ func init() {
 				}
 			}
 		}
+		// non-ASCII, confusable and odd-whitespace texts (Unicode-aware helpers change byte lengths and equalities)
+		for _, s := range unicodeStream(scale(60, 400)) {
+			count("unicode_stream")
+			if f := c03Probe(s, true); f != nil {
+				fail(*f)
+			}
+		}
 		// slices
 		for _, l := range [][]string{nil, {}, {""}, {"", ""}, {"MIT", ""}, {"(", "MIT"}, {"MIT AND ISC"}} {
 			res.Evaluations++
@@ -460,6 +467,18 @@ func init() {
 			}
 			if i%499 == 0 {
 				sample(map[string]interface{}{"list": l})
+			}
+		}
+		for _, s := range unicodeStream(scale(40, 300)) {
+			count("unicode_stream")
+			if f := c04String(s, -1); f != nil {
+				fail(*f)
+			}
+		}
+		for _, l := range whitespaceLists() {
+			count("whitespace_lists")
+			if f := c04List(l); f != nil {
+				fail(*f)
 			}
 		}
 	}
@@ -804,6 +823,67 @@ func init() {
 		}
 		enum(0)
 		res.Distribution["enumerated"] = res.Evaluations
+		// parentheses around EVERY contiguous token range of small grammatical sequences (a precedence level that takes
+		// "an atom" from the wrong function accepts e.g. `( L ) WITH e`), once and twice
+		{
+			atoms := [][]sym{{alpha[0]}, {alpha[0], alpha[15]}, {alpha[0], alpha[14], alpha[5]}, {alpha[0], alpha[15], alpha[14], alpha[5]},
+				{alpha[7]}, {alpha[8], alpha[9], alpha[7]}, {alpha[2]}, {alpha[3], alpha[15]}, {alpha[4], alpha[14], alpha[5]}}
+			var bases [][]sym
+			bases = append(bases, atoms...)
+			for _, a := range atoms {
+				for _, b := range atoms[:6] {
+					for _, op := range []sym{alpha[12], alpha[13]} {
+						bases = append(bases, append(append(append([]sym{}, a...), op), b...))
+					}
+				}
+			}
+			wrap := func(q []sym, i, j int) []sym {
+				o := append([]sym{}, q[:i]...)
+				o = append(o, alpha[10])
+				o = append(o, q[i:j]...)
+				o = append(o, alpha[11])
+				return append(o, q[j:]...)
+			}
+			for _, b := range bases {
+				for i := 0; i < len(b); i++ {
+					for j := i + 1; j <= len(b); j++ {
+						w1 := wrap(b, i, j)
+						count("paren_wraps")
+						for _, tight := range []bool{false, true} {
+							if f := c05Check(w1, tight); f != nil {
+								fail(*f)
+							}
+						}
+						if len(b) <= 4 || rng.Intn(6) == 0 {
+							i2 := rng.Intn(len(w1))
+							j2 := i2 + 1 + rng.Intn(len(w1)-i2)
+							if f := c05Check(wrap(w1, i2, j2), false); f != nil {
+								fail(*f)
+							}
+							if f := c05Check(wrap(w1, i, j+2), true); f != nil { // the same range again: `((…))`
+								fail(*f)
+							}
+						}
+					}
+				}
+				if len(corrQ) > 100000 {
+					flushCorr()
+				}
+			}
+		}
+		// texts with bytes outside the lexical alphabet (non-ASCII letters that case-fold to ASCII, other scripts, odd white
+		// space): none of them is in the language, wherever the byte stands
+		for _, text := range unicodeStream(scale(60, 400)) {
+			res.Evaluations++
+			count("unicode_stream")
+			got := implVal([]string{text})
+			acc := got.panicv == nil && got.ok
+			k := &kase{Expr: text, ExprHex: hx(text)}
+			correspondNorm("P "+hx(text), map[bool]string{true: "ok", false: "err"}[acc], "accept/reject of a text with bytes outside the lexical alphabet: model parse vs ValidateLicenses", k, okErr)
+			if acc {
+				fail(failure{Stream: "oracle", What: "a text containing a byte that is no id byte, space, parenthesis, ':' or '+' is accepted", Case: k, Impl: "true", Expected: "false"})
+			}
+		}
 		// random longer sequences: render a generated valid tree into symbols, then perturb
 		lics := []sym{alpha[0], alpha[1], alpha[2], alpha[3], alpha[4]}
 		var fromTree func(t *tree, parent string, right bool) []sym
